@@ -226,6 +226,9 @@ func patchOverride(src []byte, recvType, name, replRecv, repl string) ([]byte, b
 		call := repl + "(" + strings.Join(args, ", ") + ")"
 		if replRecv != "" {
 			call = recvName + "." + call
+		} else if fd.Recv != nil {
+			// a method replaced by a plain function: the receiver becomes the first argument
+			call = repl + "(" + strings.Join(append([]string{recvName}, args...), ", ") + ")"
 		}
 		body := call
 		if fd.Type.Results != nil && len(fd.Type.Results.List) > 0 {
